@@ -1,5 +1,6 @@
 import FloVerif.Driver.Util
 import FloVerif.Gen.Section
+import FloVerif.Gen.PathRev
 /-! Correspondence for C05: the generated kernels at `XQ` (exact) and `Float` (bit mirror) against the implementation. -/
 namespace Driver.C05
 open Prelude Gen Driver
@@ -119,6 +120,15 @@ def handle (op stream : String) (ins outs : List String) : List Out :=
       let o (j : Nat) : FV := ov.getD (j*d + k) default
       [one "D" 0 1 "rev.0" rx.t0 rf.t0 (o 0), one "D" 0 1 "rev.1" rx.t1 rf.t1 (o 1),
        one "D" 0 1 "rev.2" rx.t2 rf.t2 (o 2), one "D" 0 1 "rev.3" rx.t3 rf.t3 (o 3)]
+  | "pathrev" =>
+    -- ins: start.x start.y then (cp1 cp2 end) x,y per curve ; outs: #n start.x start.y then triples of the reversed path
+    let pt (l : List FV) (i : Nat) : V2 UInt64 := ⟨(l.getD i default).bits, (l.getD (i+1) default).bits⟩
+    let triples (l : List FV) : List (T3 (V2 UInt64) (V2 UInt64) (V2 UInt64)) :=
+      (List.range ((l.length - 2) / 6)).map fun k => T3.mk (pt l (2 + 6*k)) (pt l (4 + 6*k)) (pt l (6 + 6*k))
+    let ovr : List FV := (outs.drop 1).map (fun s => ⟨parseHex s⟩)
+    let m := path_reversed (⟨0, 0⟩ : V2 UInt64) (pt iv 0) (triples iv)
+    let ok := m.t0 == pt ovr 0 && m.t1 == triples ovr && parseNat (outs.headD "") == m.t1.length
+    [{ field := "path_reversed", cmp := if ok then .same 0 else .diff s!"model reversed path differs from the implementation's ({m.t1.length} curves)", fbit := some ok }]
   | "tfor" =>
     -- ins: a b t ; outs: t_for_t(t), section_t_for_original_t(that)
     let a := iv.getD 0 default
